@@ -517,6 +517,27 @@ def run(ctx):
     _NF.narrow_oracles(ctx, 'C13', _narrow_table())
     ctx.flush()
 
+# ---- round-5 lesson: results depend on the content of the array, not on the identity of the array object ---------------------------------
+
+def extras_refill(ctx):
+    from eqsig.fns import peaks_and_crossings as pc
+    from eqsig import im
+    gen.refill_oracle(ctx, 'C13 the same ndarray object changed in place and analysed again gives the series of its CURRENT content (%s)',
+                      {'determine_peaks_only_delta_series': pc.determine_peaks_only_delta_series, 'determine_pseudo_cyclic_peak_only_series': pc.determine_pseudo_cyclic_peak_only_series,
+                       'calc_n_cyc_array_w_power_law': lambda x: im.calc_n_cyc_array_w_power_law(x, 3.0, 0.3), 'calc_cyc_amp_array_w_power_law': lambda x: im.calc_cyc_amp_array_w_power_law(x, 5, 0.3),
+                       'calc_cyc_amp_gm_arrays_w_power_law': lambda x: im.calc_cyc_amp_gm_arrays_w_power_law(x, x, 5, 0.3),
+                       'calc_cyc_amp_combined_arrays_w_power_law': lambda x: im.calc_cyc_amp_combined_arrays_w_power_law(x, x, 5, 0.3)},
+                      ctx.rng, lambda rng: gen.int_record(rng, 24, -5, 5), n_rep=4 if ctx.tier == 'quick' else 40)
+
+
+_run_main_rf = run
+
+
+def run(ctx):
+    _run_main_rf(ctx)
+    extras_refill(ctx)
+    ctx.flush()
+
 
 # evidence: how the model is tied to the source on every run (as built, supersedes the value above)
 TIE = 'translator (peak-only series -> Gen/PeakSeries, power-law functions -> Gen/ImPower; Props/C13GenSeries, C13Gen) + correspondence'
